@@ -5,6 +5,12 @@ import json, os
 VERIF = os.path.dirname(os.path.dirname(os.path.abspath(__file__)))
 
 CLAIMED = {
+    "C03": {
+        "technique": "deterministic simulation: seeded schedule search over every map-range site (canonical vs reversed/shuffled/rotated/subset/pinned-language-order schedules) on corpus and generated pipelines; outputs and inspect IR compared; ddmin to the responsible range statement; replay",
+        "text": "Every `range` over a map in cog runs under a scheduler the harness controls, so an order-dependent site that is reached with >=2 keys is exposed by the first canonical/reversed pair instead of with luck. Pipelines (1-3 inputs in the three formats, 1-7 languages, all output toggles) are sampled, not enumerated.",
+        "note": "Map sites inside the standard library, cue, yaml.v3, expr and (for now) kin-openapi/jsonschema/codejen keep the runtime's order; a residual-nondeterminism self-check (same schedule twice, observations compared) polices that. Error texts are not compared, only ok/fail.",
+        "design_ref": "DESIGN.md §5 C03",
+    },
     "C19": {
         "technique": "deterministic simulation: seeded operation histories (incl. re-entrant callbacks, FromMap under a scheduled map order) against a slice-of-pairs reference model, checked after every operation, shrunk and replayed",
         "text": "Seeded sampling of operation histories over the real orderedmap.Map with a reference model as oracle after every step. Sampling, not enumeration: a clean batch is evidence that no short history breaks the map, not a proof.",
